@@ -92,6 +92,11 @@ def _gen_pop_case(rnd, want, opened, dynamic_only=False):
                     e_[2] = E.tolist(E.mul(E.num(round(rnd.uniform(0.5, 2.5), 3)), E.var(rnd.choice(ins_))))
                     op['__integrator'] = True
             ops[opn] = op
+            if rnd.random() < 0.25:
+                # a constant declared with an integer default (YAML `k: 2`); the per-unit params are floats all the same
+                cs_i = [v for v, d in op['vars'].items() if d[0] == 'const']
+                if cs_i:
+                    op['vars'][rnd.choice(cs_i)][1] = rnd.choice([1, 2, 3])
             n = rnd.choice([1, 2, 3, 3, 4, 6]) if want != 'pop_n1_connected' else rnd.choice([1, 1, 3])
             params = {}
             de = {e[1] for e in op['eqs'] if e[0] == 'de'}
@@ -252,7 +257,7 @@ def _gen_pop_case(rnd, want, opened, dynamic_only=False):
         # dde_approx: the delayed connections (none of which has a spread) become gamma chains of the order given to run /
         # get_run_func; the reference gets the equivalent spread d/sqrt(n)
         dl_ = [c_ for c_ in conns if c_.get('delay')]
-        if want in (None, 'conn_delay') and dl_ and rnd.random() < 0.3 and not any(c_.get('spread') or 'zero_spread' in c_ or c_['kind'] == 'coupling' for c_ in conns):
+        if want in (None, 'conn_delay') and dl_ and rnd.random() < 0.3 and not any(c_['source'][2] == 'k' for c_ in dl_) and not any(c_.get('spread') or 'zero_spread' in c_ or c_['kind'] == 'coupling' for c_ in conns):
             n_ = rnd.choice([1, 2, 3])
             for c_ in dl_:
                 c_['delay'] = round(max(c_['delay'], 1.5 * n_ * dt), 6)
@@ -381,11 +386,20 @@ def build_population_circuit(plan_):
     circ = CircuitTemplate(name='popc', populations=pops, connections=conns)
     if plan_.get('pre_update'):
         # a second circuit that holds the very same PopulationTemplate / Connectivity objects (built before the updates)
-        build_population_circuit.sibling = CircuitTemplate(name='popc_sibling', populations=dict(pops), connections=list(conns))
+        # (half of the time the very same dictionary / list objects that the first circuit was constructed with)
+        same_ = plan_.get('sibling_same_containers')
+        build_population_circuit.sibling = CircuitTemplate(name='popc_sibling', populations=pops if same_ else dict(pops),
+                                                           connections=conns if same_ else list(conns))
+    nv = {}
     for k_, u_ in plan_.get('pre_update', {}).items():
         pn, v = k_.split('/')
         final = plan_['pops'][pn]['params'][v]
-        circ.update_var(node_vars={f"{pn}/{plan_['pops'][pn]['op']}/{v}": float(final[0]) if u_['scalar'] else np.asarray(final, dtype=float)})
+        val_ = float(final[0]) if u_['scalar'] else np.asarray(final, dtype=float)
+        if u_.get('via') == 'node_values':
+            nv[f"{pn}/{plan_['pops'][pn]['op']}/{v}"] = val_
+        else:
+            circ.update_var(node_vars={f"{pn}/{plan_['pops'][pn]['op']}/{v}": val_})
+    build_population_circuit.node_values = nv
     return circ
 
 
@@ -435,6 +449,7 @@ def run_case(case, ctx):
         dt = 1e-3
         # ---- vector field of the population circuit (only meaningful without ring buffers: buffers hold state) ----------------
         tmpl = build_population_circuit(plan_)
+        nvkw = {'node_values': dict(build_population_circuit.node_values)} if getattr(build_population_circuit, 'node_values', None) else {}
         has_dynamic = any(c['kind'] == 'coupling' and c.get('form') == 'dynamic' for c in plan_['conns'])
         if has_dynamic:
             mech['dynamic_coupling_models'] = 1
@@ -442,7 +457,7 @@ def run_case(case, ctx):
         if not has_delay and not has_dynamic:
             try:
                 f, args, names, smap = tmpl.get_run_func('vf', step_size=dt, vectorize=True, verbose=False, clear=True, in_place=False,
-                                                         float_precision='float64')
+                                                         float_precision='float64', **nvkw)
             except Exception as e:
                 import traceback
                 raise observe.Mismatch(f"loud: population circuit get_run_func raised {type(e).__name__}: {e} :: {traceback.format_exc()[-500:]}")
@@ -485,6 +500,7 @@ def run_case(case, ctx):
                 outputs[f'{pn}_{v}'] = f"{pn}/{p['op']}/{v}"
                 keycols.append((f'{pn}_{v}', [(f'{pn}__{i}', p['op'], v) for i in range(p['n'])]))
         tmpl = build_population_circuit(plan_)
+        nvkw = {'node_values': dict(build_population_circuit.node_values)} if getattr(build_population_circuit, 'node_values', None) else {}
         # optional extrinsic input (1-D, broadcast to all units) on an input variable of one population
         rnd_in = random.Random(case['cseed'] + 7)
         inputs, input_fn = None, None
@@ -506,7 +522,7 @@ def run_case(case, ctx):
             if kw_dde:
                 mech['dde_approx_runs'] = 1
             df = tmpl.run(simulation_time=steps * dt, step_size=dt, solver='euler', outputs=dict(outputs), verbose=False, clear=True,
-                          in_place=False, float_precision='float64', inputs=inputs, **kw_dde)
+                          in_place=False, float_precision='float64', inputs=inputs, **kw_dde, **nvkw)
         except Exception as e:
             import traceback
             raise observe.Mismatch(f"loud: population circuit run raised {type(e).__name__}: {e} :: {traceback.format_exc()[-500:]}")
